@@ -49,7 +49,12 @@ SLICERS = {
     'fanout(a)': (lambda t: t.add_slice('a', 'fan', slice_fn=_fan), ('fan',), lambda row: [(v,) for v in _fan(row['a'])]),
     'a within {1}': (lambda t: t.add_slice(dict(a=(1,))), ('a',), lambda row: [(row['a'],)] if row['a'] in (1,) else []),
     'b within {x,z}': (lambda t: t.add_slice(dict(b=('x', 'z'))), ('b',), lambda row: [(row['b'],)] if row['b'] in ('x', 'z') else []),
+    # a value set given as ONE bare string means that single value (no feature value equals 'xyz' here)
+    'b within "xyz"': (lambda t: t.add_slice(dict(b='xyz')), ('b',), lambda row: [(row['b'],)] if row['b'] == 'xyz' else []),
+    # replace mode: rows outside the slice are replaced by 0 instead of being filtered out
+    'a (replace 0)': (lambda t: t.add_slice('a', replace_mask_false_with=0.0), ('a',), lambda row: [(row['a'],)]),
 }
+REPLACE = {'a (replace 0)'}
 
 
 def _streams(thorough):
@@ -72,11 +77,15 @@ def bounded_groupby(p):
   S = Search(p, dict(streams='empty stream and 1/3/6 rows in every split into <=3 batches', slicer_sets='every subset of <=2 of 5 slicers (single feature, cross, fan-out, within-values)',
                      aggregates='one, two stacked, one with disable_slicing'))
   names = list(SLICERS)
-  slicer_sets = [()] + [(n,) for n in names] + [c for c in itertools.combinations(names, 2)
+  slicer_sets = [()] + [(n,) for n in names] + [c for c in itertools.permutations(names, 2)
                                                 if SLICERS[c[0]][1] != SLICERS[c[1]][1]]     # equal slice names are rejected at build time
   for stream in _streams(S.thorough()):
     rows = [r for b in stream for r in b]
     for sset in slicer_sets:
+      if len(stream) > 1 and any(n in REPLACE for n in sset):
+        # replace mode keeps the rows outside a slice (as the replacement value) only within the batches in which
+        # the slice value occurs, so its result depends on the batching; it is compared on single-batch streams only
+        continue
       for agg_mode in ('one', 'two', 'first-unsliced'):
         def build():
           t = transform.TreeTransform().aggregate(SumCount(), input_keys='v', output_keys='sum_v', disable_slicing=(agg_mode == 'first-unsliced'))
@@ -109,10 +118,11 @@ def bounded_groupby(p):
                   values.append(v)
             for v in values:
               sel = [r for r in rows if v in member(r)]
+              cnt = len(rows) if n in REPLACE else len(sel)     # replace mode keeps every row (value 0)
               if agg_mode != 'first-unsliced':
-                exp[MetricKey('sum_v', SliceKey(sname, v))] = [sum(r['v'] for r in sel), len(sel)]
+                exp[MetricKey('sum_v', SliceKey(sname, v))] = [sum(r['v'] for r in sel), cnt]
               if agg_mode != 'one':
-                exp[MetricKey('rows', SliceKey(sname, v))] = len(sel)
+                exp[MetricKey('rows', SliceKey(sname, v))] = cnt
         res = got[1] if got[1] is not None else {}
         res = dict(res) if not isinstance(res, dict) else res
         if not stream:
